@@ -4,5 +4,6 @@ import ThriftVerif.Facts.ExpectCompile
 #print axioms ThriftVerif.Properties.C08.compile_total_partial
 #print axioms ThriftVerif.Properties.C08.compile_total_plain_values
 #print axioms ThriftVerif.Properties.C08.compile_total_closed_defaults
+#print axioms ThriftVerif.Properties.C08.cycle_search_witnesses
 #print axioms ThriftVerif.Properties.C08.former_divergence_rejected
 #print axioms ThriftVerif.Facts.ExpectCompile.sites_covered
